@@ -128,10 +128,13 @@ func c05Run(c *run.Ctx, ci int, k c05Case) {
 	var g *sim.Grant
 	switch k.Origin {
 	case "code":
-		g = s.Authorize(sim.AuthzReq{Client: k.Client, RT: "code", Scopes: granted, Aud: k.Aud})
+		// partial consent: more is requested (scopes and audiences the registration allows) than the resource owner grants
+		req := addUnique(append([]string{}, granted...), "fosite")
+		g = s.Authorize(sim.AuthzReq{Client: k.Client, RT: "code", Scopes: req, Granted: granted, Aud: allAud, GrantAud: append([]string{}, k.Aud...)})
 	case "hybrid":
 		granted = append([]string{"openid"}, granted...)
-		g = s.Authorize(sim.AuthzReq{Client: k.Client, RT: "code id_token", Scopes: granted, Aud: k.Aud})
+		req := addUnique(append([]string{}, granted...), "fosite")
+		g = s.Authorize(sim.AuthzReq{Client: k.Client, RT: "code id_token", Scopes: req, Granted: granted, Aud: allAud, GrantAud: append([]string{}, k.Aud...)})
 	case "password":
 		g = s.Password(k.Client, granted)
 	case "device":
